@@ -4,7 +4,7 @@
    connect outcomes, task-group cancellation and caller cancellation; every theorem quantifies over all tr. *)
 From Coq Require Import ZArith List Bool Arith Lia Permutation.
 Import ListNotations.
-From EN Require Import Gen.ParamsC19 Conc.ConnRace Conc.ClientConn Proofs.C19_reorder Proofs.C19_proofs Proofs.C19_client.
+From EN Require Import Gen.ParamsC19 Conc.ConnRace Conc.ClientConn Proofs.C19_reorder Proofs.C19_proofs Proofs.C19_client Proofs.C19_progress.
 
 (* at every reachable state the open sockets are exactly the sockets of the attempts suspended in connect, plus the
    winner as long as the race has not ended with an exception; no socket is counted twice *)
@@ -41,6 +41,50 @@ Theorem result_final : forall c tr s l,
   step c s l = None.
 Proof. intros c tr s l Hd Hne. exact (result_is_final c Hd Hne tr s l). Qed.
 Print Assumptions result_final.
+
+(* ---- progress and termination of the race.  LCancelCaller (the caller is cancelled: an environment event that may
+   be repeated without effect) is set apart; "every started attempt eventually completes, fails or is cancelled" is
+   the assumption that the enabled labels below are eventually taken. *)
+
+(* no deadlock: in every reachable state without a result some label other than LCancelCaller is enabled -- a step
+   of the host or of a child, or the outcome (success / failure / cancellation) of a pending connect *)
+Theorem race_progress : forall c tr s,
+  NoDup (map a_id (c_addrs c)) -> c_addrs c <> [] -> exec c (init c) tr = Some s -> r_result s = None ->
+  exists l, l <> LCancelCaller /\ step c s l <> None.
+Proof.
+  intros c tr s Hd Hne H Hr.
+  destruct (progress c s (exec_inv c Hd Hne tr (init c) s (init_inv c) H)
+                     (exec_inv2 c tr (init c) s (init_inv2 c) H) Hr) as (l & A & B).
+  exists l. split; [intro E; subst; discriminate | exact B].
+Qed.
+Print Assumptions race_progress.
+
+(* bounded: along any execution from a reachable state the number of labels other than LCancelCaller is at most the
+   measure mu (3 per attempt not yet spawned, 2 per new, 1 per connecting, plus the host's remaining stages) *)
+Theorem race_bounded : forall c tr s tr2 s2,
+  NoDup (map a_id (c_addrs c)) -> c_addrs c <> [] -> exec c (init c) tr = Some s -> exec c s tr2 = Some s2 ->
+  length (filter (fun l => match l with LCancelCaller => false | _ => true end) tr2) + mu c s2 <= mu c s.
+Proof.
+  intros c tr s tr2 s2 Hd Hne H H2.
+  pose proof (bounded_steps c Hd Hne tr2 s s2 (exec_inv c Hd Hne tr (init c) s (init_inv c) H) H2) as B.
+  erewrite filter_ext; [exact B|]. intros []; reflexivity.
+Qed.
+Print Assumptions race_bounded.
+
+(* termination: from every reachable state a result is reached, by any schedule that keeps taking enabled labels
+   other than LCancelCaller, within mu steps; with race_bounded no such schedule can go on for longer *)
+Theorem race_reaches_result : forall c tr s,
+  NoDup (map a_id (c_addrs c)) -> c_addrs c <> [] -> exec c (init c) tr = Some s ->
+  exists tr2 s2, exec c s tr2 = Some s2 /\ r_result s2 <> None /\ length tr2 <= mu c s /\
+                 Forall (fun l => l <> LCancelCaller) tr2.
+Proof.
+  intros c tr s Hd Hne H.
+  destruct (reaches_result c Hd Hne (mu c s) s (exec_inv c Hd Hne tr (init c) s (init_inv c) H)
+                           (exec_inv2 c tr (init c) s (init_inv2 c) H) (le_n _)) as (tr2 & s2 & A & B & C & D).
+  exists tr2, s2. repeat split; auto. rewrite forallb_forall in D. apply Forall_forall. intros l Hl E. subst.
+  specialize (D _ Hl). discriminate.
+Qed.
+Print Assumptions race_reaches_result.
 
 (* a connect attempt that succeeds while a winner exists closes its own socket and leaves the winner alone,
    in every state (not only reachable ones) *)
